@@ -289,8 +289,8 @@ impl Prop for C18 {
             return rep;
         }
         let mut scripts: BTreeMap<u32, Script> = BTreeMap::new();
-        scripts.insert(0x000b, Script { status: case.gpa.http_status, framing: case.gpa.framing.clone(), ipp: gpa_ipp(7, &case.gpa), trailing: vec![], segments: case.gpa.segments.clone(), fault: None, reset_request_after: None });
-        scripts.insert(0x0002, Script { status: case.job.http_status, framing: case.job.framing.clone(), ipp: job_ipp(&case.job), trailing: vec![], segments: case.job.segments.clone(), fault: None, reset_request_after: None });
+        scripts.insert(0x000b, Script { status: case.gpa.http_status, framing: case.gpa.framing.clone(), ipp: gpa_ipp(7, &case.gpa), trailing: vec![], segments: case.gpa.segments.clone(), fault: None, reset_request_after: None, drip_ms: 0 });
+        scripts.insert(0x0002, Script { status: case.job.http_status, framing: case.job.framing.clone(), ipp: job_ipp(&case.job), trailing: vec![], segments: case.job.segments.clone(), fault: None, reset_request_after: None, drip_ms: 0 });
         let printer = match TcpPrinter::start_keyed(scripts, true) {
             Ok(p) => p,
             Err(e) => {
